@@ -414,4 +414,172 @@ theorem appendChunks_cols (t : CHText.Text) (cs : List CHText.Chunk) (d : CHText
         · exact Or.inr ⟨c, by simp, by rw [hd, h']⟩
         · exact Or.inl ⟨f, hf, by rw [hd, h']⟩
     · exact Or.inr ⟨e, by simp [he], hd⟩
+/-! ### chunk lists given as data (the judged path of the driver) -/
+
+theorem dropLast_getLast {α} (l : List α) (a : α) (h : l.getLast? = some a) : l = l.dropLast ++ [a] := by
+  induction l with
+  | nil => simp at h
+  | cons x xs ih =>
+    cases xs with
+    | nil => simp at h; simp [h]
+    | cons y ys =>
+      have : (y :: ys).getLast? = some a := by simpa [List.getLast?_cons_cons] using h
+      have := ih this
+      simp only [List.dropLast_cons_cons, List.cons_append]
+      rw [← this]
+
+theorem seqBody_eq (p body : List Char) (h : seqBody p = some body) :
+    p = ESC :: '[' :: (body ++ ['m']) := by
+  match p, h with
+  | a :: b :: rest, h =>
+    simp only [seqBody] at h
+    split at h
+    · rename_i hc
+      obtain ⟨rfl, rfl, hl⟩ := hc
+      simp at h; subst h
+      rw [← dropLast_getLast rest 'm' hl]
+    · simp at h
+
+theorem paramAlphabet_facts :
+    ∀ c ∈ paramAlphabet, isParamChar c = true ∧ c ∈ ';' :: codeAlphabet := by decide +kernel
+
+theorem rawOk_good (k : CharClass) (fin : Char)
+    (hk : ∀ c ∈ ';' :: codeAlphabet, k.mem c = true) (hfin : fin = 'm') (hm : k.mem fin = false)
+    (p q : List Char) (h : rawOk p q = true) :
+    ∃ a, rawAttr p = some a ∧ PreShows p a ∧ SufResets q a ∧ Strippable k fin p ∧ Strippable k fin q := by
+  have hnil : Strippable k fin [] := fun _ => rfl
+  by_cases hp : p = []
+  · subst hp
+    cases q with
+    | nil => exact ⟨Attr.default, rfl, fun _ => rfl, fun _ => rfl, hnil, hnil⟩
+    | cons c cs =>
+      simp only [rawOk, rawAttr] at h
+      generalize seqBody (c :: cs) = o at h
+      cases o <;> simp at h
+  · have hro : rawOk p q = (match rawAttr p, seqBody q with
+        | some a, some body => body.all paramAlphabet.contains && applySgr body a == some Attr.default && !p.isEmpty
+        | _, _ => false) := by
+      cases p with
+      | nil => exact absurd rfl hp
+      | cons c cs => rfl
+    rw [hro] at h
+    cases ha : rawAttr p with
+    | none => simp [ha] at h
+    | some a =>
+      cases hq : seqBody q with
+      | none => simp [ha, hq] at h
+      | some bq =>
+        simp only [ha, hq, Bool.and_eq_true, beq_iff_eq] at h
+        obtain ⟨⟨hbq, hreset⟩, _⟩ := h
+        have hqeq := seqBody_eq q bq hq
+        -- the prefix
+        have hpa : ∃ bp, seqBody p = some bp ∧ bp.all paramAlphabet.contains = true ∧
+            applySgr bp Attr.default = some a := by
+          cases p with
+          | nil => exact absurd rfl hp
+          | cons c cs =>
+            simp only [rawAttr] at ha
+            cases hb : seqBody (c :: cs) with
+            | none => simp [hb] at ha
+            | some bp =>
+              simp only [hb] at ha
+              split at ha
+              · rename_i hall; exact ⟨bp, rfl, hall, ha⟩
+              · simp at ha
+        obtain ⟨bp, hbp, hallp, happ⟩ := hpa
+        have hpeq := seqBody_eq p bp hbp
+        have memp : ∀ c ∈ bp, c ∈ paramAlphabet := by
+          intro c hc; have := List.all_eq_true.mp hallp c hc; simpa using this
+        have memq : ∀ c ∈ bq, c ∈ paramAlphabet := by
+          intro c hc; have := List.all_eq_true.mp hbq c hc; simpa using this
+        refine ⟨a, rfl, ?_, ?_, ?_, ?_⟩
+        · intro rest
+          have := run_seq bp rest Attr.default (fun c hc => (paramAlphabet_facts c (memp c hc)).1)
+          rw [hpeq]; simpa [happ] using this
+        · intro rest
+          have := run_seq bq rest a (fun c hc => (paramAlphabet_facts c (memq c hc)).1)
+          rw [hqeq]; simpa [hreset] using this
+        · intro rest
+          have := strip_seq k fin bp rest (fun c hc => hk c (paramAlphabet_facts c (memp c hc)).2) hm
+          subst hfin; rw [hpeq]; simpa using this
+        · intro rest
+          have := strip_seq k fin bq rest (fun c hc => hk c (paramAlphabet_facts c (memq c hc)).2) hm
+          subst hfin; rw [hqeq]; simpa using this
+
+/-- the judged path: a given chunk list (ids through a good palette, raw chunks well formed) -/
+theorem given_shows (k : CharClass) (fin : Char)
+    (hk : ∀ c ∈ ';' :: codeAlphabet, k.mem c = true) (hfin : fin = 'm') (hm : k.mem fin = false)
+    (pal : Palette) (attrs : List Attr) (hg : PalGood k fin pal attrs)
+    (gs : List Given) (cs : List Sgr.Chunk) (h : givenChunks pal gs = some cs)
+    (hok : ∀ g ∈ gs, g.ok = true) (hne : ∀ g ∈ gs, NoEsc g.text) :
+    ∃ screen, givenScreen attrs gs = some screen ∧
+      (∀ rest, run .ground Attr.default (render cs ++ rest) =
+        prepend screen (run .ground Attr.default rest)) ∧
+      AllChunks (fun p q => ∃ a, PreShows p a ∧ SufResets q a) cs ∧
+      (∀ rest, strip k fin (render cs ++ rest) = gs.flatMap Given.text ++ strip k fin rest) ∧
+      plain cs = gs.flatMap Given.text := by
+  induction gs generalizing cs with
+  | nil =>
+    simp [givenChunks] at h; subst h
+    exact ⟨[], rfl, fun rest => by simp [render, prepend_nil], fun c hc => by simp at hc,
+      fun rest => by simp [render], rfl⟩
+  | cons g gs ih =>
+    simp only [givenChunks] at h
+    cases hc : givenChunk pal g with
+    | none => simp [hc] at h
+    | some c =>
+      cases hr : givenChunks pal gs with
+      | none => simp [hc, hr] at h
+      | some cs' =>
+        simp [hc, hr] at h; subst h
+        obtain ⟨screen, hscreen, hrun, hall, hstrip, hplain⟩ :=
+          ih cs' hr (fun x hx => hok x (by simp [hx])) (fun x hx => hne x (by simp [hx]))
+        have hte := hne g (by simp)
+        -- the chunk `c` is good with some attribute `a` that `givenScreen` also finds
+        have hgood : ∃ a, g.attr attrs = some a ∧ c.text = g.text ∧
+              PreShows c.pre a ∧ SufResets c.suf a ∧ Strippable k fin c.pre ∧ Strippable k fin c.suf := by
+          cases g with
+          | byId col t =>
+            simp only [givenChunk] at hc
+            cases he : entry pal col with
+            | none => simp [he] at hc
+            | some e =>
+              simp [he] at hc; subst hc
+              obtain ⟨a, h1, h2, h3, h4, h5⟩ := hg col e.1 e.2 (by simp [he])
+              exact ⟨a, h1, rfl, h2, h3, h4, h5⟩
+          | raw p q t =>
+            simp [givenChunk] at hc; subst hc
+            have := hok (.raw p q t) (by simp)
+            obtain ⟨a, h1, h2, h3, h4, h5⟩ := rawOk_good k fin hk hfin hm p q this
+            exact ⟨a, h1, rfl, h2, h3, h4, h5⟩
+        obtain ⟨a, hattr, htext, hpre, hsuf, hsp, hsq⟩ := hgood
+        have hnoesc : NoEsc c.text := htext ▸ hte
+        refine ⟨g.text.map (fun x => (x, a)) ++ screen, ?_, ?_, ?_, ?_, ?_⟩
+        · simp only [givenScreen, hattr, hscreen]
+        · intro rest
+          simp only [render, List.append_assoc]
+          rw [run_chunk c a ⟨hpre, hsuf, hnoesc⟩, hrun rest, prepend_append, htext]
+        · intro x hx
+          simp only [List.mem_cons] at hx
+          rcases hx with rfl | hx
+          · exact ⟨⟨a, hpre, hsuf⟩, hnoesc⟩
+          · exact hall x hx
+        · intro rest
+          simp only [render, List.append_assoc]
+          rw [hsp, strip_text k fin _ _ hnoesc, hsq, hstrip rest, htext]
+          simp
+        · simp [plain, hplain, htext]
+
+/-- the link to `renderText`: a `CHText` value is the chunk list of its ids -/
+theorem toChunks_given (pal : Palette) (chunks : List CHText.Chunk) :
+    toChunks pal chunks = givenChunks pal (chunks.map fun c => Given.byId c.col c.text) := by
+  induction chunks with
+  | nil => rfl
+  | cons c cs ih =>
+    simp only [toChunks, List.map_cons, givenChunks, givenChunk, ih]
+    cases entry pal c.col with
+    | none => simp
+    | some e =>
+      obtain ⟨p, q⟩ := e
+      cases givenChunks pal (cs.map fun c => Given.byId c.col c.text) <;> simp
 end SgrText
